@@ -5,6 +5,7 @@ import Cutplace.Proofs.LengthRange
 import Cutplace.Proofs.DateTimeLemmas
 import Cutplace.Proofs.DateTimeComplete
 import Cutplace.Proofs.Layout
+import Cutplace.Proofs.RegexSem
 /-
 C02  Each field type accepts exactly the values its rule describes.
 
@@ -352,5 +353,44 @@ example :
     SafeLayout l ∧ renderLayout l = "YYYYMMDDhhmm".toList := by
   refine ⟨?_, by decide⟩
   simp [SafeLayout, LTok.isYear]
+
+/-- **RegEx (and Pattern): the matcher decides the declarative semantics of the expression.**  For every expression of the
+modelled subset (characters ignoring case, `.`, classes, sequence, alternation, `*`, `{m,n}`, `^ $ \Z`) and every value,
+`regex.match(value)` - as modelled: sets of end positions, closure loops with fuel `len + 1` - succeeds iff the expression
+matches the text between position 0 and some position `j` in the usual inductive sense (`Rx.Matches`: star = reflexive
+transitive closure, `{m,n}` = m to n repetitions).  The fuel never runs out before the closure is complete: every round adds a
+new position and there are only `len + 1` positions (`loop_spec`, pigeonhole via `Nodup.length_le_of_subset`). -/
+theorem C02_regex_semantics (rx : Rx) (v : Str) : rx.matchPrefix v = true ↔ ∃ j, rx.Matches v.toArray 0 j :=
+  matchPrefix_iff rx v
+
+/-- the same for any set of start positions inside the text: `ends` is exactly the image under "matches" -/
+theorem C02_regex_ends (rx : Rx) (s : Array Char) (ps : List Nat) (hps : ∀ p ∈ ps, p ≤ s.size) (j : Nat) :
+    j ∈ rx.ends s ps ↔ ∃ i ∈ ps, rx.Matches s i j :=
+  ends_spec s rx ps hps j
+
+/-- **Pattern: a value is accepted iff the glob matches it entirely.**  `GlobSem` is the reading of the glob itself: `*` any
+text (also none), `?` any one character, `[...]` one character of the class, `[` without closing bracket and every other
+character itself, ignoring case; nothing of the value may be left over.  For every rule inside the modelled fragment of
+`fnmatch.translate` the compiled expression accepts exactly these values. -/
+theorem C02_pattern (rule : Str) (rx : Rx) (v : Str) (h : globToRx (rule.length + 1) rule = some rx) :
+    rx.matchPrefix v = true ↔ GlobSem (rule.length + 1) rule v :=
+  pattern_accepts (rule.length + 1) rule rx v h
+
+/-- the field: a Pattern field declared with a rule accepts (ASCII) `v` iff the glob denotes it -/
+theorem C02_pattern_field (rule : Str) (rx : Rx) (v : Str) (h : globToRx (rule.length + 1) rule = some rx) (ha : isAscii v = true) :
+    (FieldKind.pattern rx).validatedValue v = .ok (some (.str v)) ↔ GlobSem (rule.length + 1) rule v := by
+  rw [← C02_pattern rule rx v h]
+  simp only [FieldKind.validatedValue, ha, Bool.not_true, Bool.false_eq_true, if_false]
+  cases rx.matchPrefix v <;> simp
+
+/-- non-vacuity: `a*` denotes `Ab` (case is ignored) and not `ba` -/
+example : GlobSem 3 ['a', '*'] ['A', 'b'] ∧ ¬ GlobSem 3 ['a', '*'] ['b', 'a'] := by
+  constructor
+  · refine ⟨'A', ['b'], rfl, by decide, ?_⟩
+    exact ⟨1, by decide, rfl⟩
+  · rintro ⟨x, v', h, hf, _⟩
+    cases h
+    revert hf
+    decide
 
 end Cutplace.Props
